@@ -563,3 +563,48 @@ Definition naxis2_expected : list N := s2l "NAXIS2 ".
 Lemma naxis2_card_named n : n < 2 ^ 64 ->
   check_kw_uint 64 (mand_record naxis2_kw n) naxis2_expected = Datatypes.inr n.
 Proof. exact (naxis2_card n). Qed.
+
+(** ---------- the multi-order-map reader never runs out of fuel either ---------- *)
+Lemma mom_rows_fuel : forall fuel nskip n dmax data l_acc, (List.length data < fuel)%nat ->
+  mom_rows fuel nskip n dmax data l_acc <> Datatypes.inl FFuel.
+Proof.
+  induction fuel as [|f IH]; intros nskip n dmax data l_acc Hf; [lia|].
+  cbn [mom_rows]. destruct (n =? 0); [discriminate|].
+  destruct (Nat.ltb_spec (List.length data) (16 + nskip)); [discriminate|].
+  cbv zeta. destruct (be_value (firstn 8 data) <? 4); [discriminate|].
+  destruct (_ || _); [discriminate|].
+  apply IH. rewrite skipn_length. lia.
+Qed.
+
+Theorem mom_read_total b : mom_read b <> MomErr FFuel.
+Proof.
+  unfold mom_read, consume_primary.
+  destruct (read_block_cases b) as [[Hb0 Eb0]|[Hb0 Eb0]]; rewrite Eb0; [discriminate|].
+  kv_step. kv_step.
+  set (rest0 := skipn 2880 b).
+  assert (P : forall x, (if contains_end (skipn 3 (chunks 36 (firstn 2880 b))) then Datatypes.inr rest0 else skip_to_end (S (List.length rest0)) rest0) = Datatypes.inl x -> x <> FFuel).
+  { intros x. destruct (contains_end _); [discriminate|]. intros H Z. subst x. exact (skip_to_end_fuel _ _ (Nat.lt_succ_diag_r _) H). }
+  destruct (if contains_end (skipn 3 (chunks 36 (firstn 2880 b))) then Datatypes.inr rest0 else skip_to_end (S (List.length rest0)) rest0) as [x|b1] eqn:EP.
+  { intros H. inversion H; subst. exact (P FFuel eq_refl eq_refl). }
+  clear P EP.
+  destruct (read_block_cases b1) as [[Hb1 Eb1]|[Hb1 Eb1]]; rewrite Eb1; [discriminate|].
+  kv_step. kv_step. kv_step.
+  destruct (check_kw_uint 64 _ (s2l "NAXIS1  ")) as [e|nbytes] eqn:EU1.
+  { intros H. inversion H; subst. exact (check_kw_uint_nf _ _ _ _ EU1 eq_refl). }
+  destruct (check_kw_uint 64 _ (s2l "NAXIS2 ")) as [e|nrows] eqn:EU2.
+  { intros H. inversion H; subst. exact (check_kw_uint_nf _ _ _ _ EU2 eq_refl). }
+  kv_step. kv_step.
+  destruct (check_kw_uint 64 _ (s2l "TFIELDS ")) as [e|nf] eqn:EU3.
+  { intros H. inversion H; subst. exact (check_kw_uint_nf _ _ _ _ EU3 eq_refl). }
+  kv_step. kv_step. kv_step. kv_step.
+  destruct (kw_blocks _ _ _ _) as [e|[m data]] eqn:EK.
+  { intros H. inversion H; subst. exact (kw_blocks_fuel _ _ _ _ (Nat.lt_succ_diag_r _) _ EK eq_refl). }
+  destruct (kw_get m 11); [|discriminate].
+  destruct (kw_get m 2) as [[n| |d|n]|]; try discriminate.
+  destruct n as [|p]; [|discriminate].
+  destruct (kw_get m 3); [|discriminate].
+  destruct (depth_at m 10) as [d|]; [|discriminate].
+  destruct (29 <? d); [discriminate|]. destruct (_ || _); [discriminate|].
+  destruct (mom_rows _ _ _ _ _ _) as [e|rows] eqn:EM; [|discriminate].
+  intros H. inversion H; subst. exact (mom_rows_fuel _ _ _ _ _ _ (Nat.lt_succ_diag_r _) EM).
+Qed.
